@@ -150,7 +150,8 @@ pub fn expand_child(args: &[String]) -> i32 {
         for src in list {
             let r = expand_src(&src);
             let (t, m) = match &r {
-                Expansion::Ok(s) => ("ok", if keep_ok { s.clone() } else { String::new() }),
+                // (an accepted request must produce items: an empty expansion is reported as such)
+                Expansion::Ok(s) => ("ok", if keep_ok { s.clone() } else if s.trim().is_empty() { "<empty>".to_string() } else { String::new() }),
                 Expansion::Err(m) => ("err", m.clone()),
                 Expansion::Panic(m) => ("panic", m.clone()),
                 Expansion::Unparsable(m) => ("unparsable", m.clone()),
